@@ -96,6 +96,9 @@ type Opts struct {
 	Params         map[*ssa.Parameter]*Term
 	FreeVars       map[*ssa.FreeVar]*Term
 	RecordLoads    bool
+	// Observe is called for every non-inlined call before its effects on
+	// memory are applied (rules use Peek to read the state the callee sees).
+	Observe func(x *Explorer, ev *Event)
 }
 
 type deferred struct {
@@ -352,6 +355,14 @@ func (x *Explorer) Decide(t *Term) (val, ok bool) {
 				return bv, true
 			}
 		}
+		if cv, isC := b.Int64(); isC {
+			if lo, ok := x.lower(a); ok && cv < lo {
+				return false, true
+			}
+			if hi, ok := x.upper(a); ok && cv > hi {
+				return false, true
+			}
+		}
 		if x.Opts.NonNilOnNilErr && b.IsNil() && a.Kind == KExtract && a.N == 0 {
 			if x.errIsNil(a.Args[0]) {
 				return false, true
@@ -432,3 +443,17 @@ func (x *Explorer) Prefix() []Event { return x.events }
 
 // PrefixLits returns the literals of the path explored so far.
 func (x *Explorer) PrefixLits() []Lit { return x.lits }
+
+// Peek returns the content of the memory cell at addr if the path knows it.
+func (x *Explorer) Peek(addr *Term) (*Term, bool) {
+	v, ok := x.mem[addr.ID]
+	if !ok || v == unkTerm {
+		return nil, false
+	}
+	return v, true
+}
+
+// FieldAddrOf builds the address term base.f.
+func (x *Explorer) FieldAddrOf(base *Term, f *types.Var) *Term {
+	return x.T.mk(Term{Kind: KFieldAddr, Var: f, Args: []*Term{base}, Type: types.NewPointer(f.Type())})
+}
